@@ -103,7 +103,7 @@ impl MpscChannel {
         let pat_type_receiver: TokenStream;
         let declaration_call:  TokenStream;    
         let declaration:       TokenStream;    
-        let mut sender_call = quote!{ let _ = self.#sender.send(msg).await; };
+        let mut sender_call = quote!{ let _ = self.#sender.send(#msg).await.expect(#error); };
 
         match  channel {
     
